@@ -91,6 +91,31 @@ pub fn curated(ctx: &Ctx) -> Vec<BuildSpec> {
             v.push(s);
         }
     }
+    // file sizes around every power of two from 8 KiB to 1 MiB (thorough: 16 MiB): buffer and block sizes of readers, hashers and compressors
+    for c in [Comp::None, Comp::Gzip(1), Comp::Zstd(1)] {
+        let mut s = BuildSpec::minimal();
+        s.name = "ladder".into();
+        s.compression = c;
+        for k in 13..=(if ctx.thorough() { 24 } else { 20 }) {
+            for (d, n) in [(-1i64, "m"), (0, "e"), (1, "p")] {
+                s.files.push(FileSpec::new(&format!("/ladder/k{:02}{}", k, n), Content::Noise(((1i64 << k) + d) as usize)));
+            }
+        }
+        v.push(s);
+    }
+    // long texts (a main header beyond 64 KiB) and many files (index arrays beyond 64 KiB)
+    let mut s = one_file();
+    s.name = "long-texts".into();
+    s.summary = "s".repeat(8_193);
+    s.description = Some("d".repeat(65_537));
+    v.push(s);
+    let mut s = BuildSpec::minimal();
+    s.name = "many-files".into();
+    s.compression = Comp::Gzip(1);
+    for i in 0..2_500usize {
+        s.files.push(FileSpec::new(&format!("/many/d{}/f{:04}", i % 7, i), Content::Text(i % 5)));
+    }
+    v.push(s);
     let keys: &[Key] = if ctx.thorough() { &ALL_KEYS } else { &FAST_KEYS };
     for base in [BuildSpec::minimal(), one_file(), rich()] {
         for k in keys {
@@ -254,6 +279,7 @@ pub fn run_shared(ctx: &Ctx, sub: &str, which: &[&str]) -> SubReport {
                 acc.nontrivial += 1;
                 if do16 {
                     oracle_offsets(sub, &p, rank, &case, acc);
+                    oracle_payload_start(sub, &p, rank, &case, acc);
                 }
                 oracle_file_api(sub, &it.bytes, rank, &case, acc);
                 acc.sample(rank, || json!({"corpus_item": it.desc["spec"]["name"], "history": it.desc["history"], "bytes": it.bytes.len()}));
